@@ -16,7 +16,7 @@ RULE = ('DAG families: double chains depth 1..60 (every level references its chi
         'construction, dictionary build/parse; adversarial inputs: BoC headers with maximal cells/roots/size fields over a truncated body, '
         'TL vectors with count up to 2^32-1, TL bytes with length 0xFFFFFF, nested bytes, dictionaries with maximal labels; distinct = '
         'distinct (kind, size)')
-ASSUMPTIONS = ['work = number of Python "line" trace events whose code lives under pytoniq_core (deterministic, refactoring-neutral up to constants)',
+ASSUMPTIONS = ['memory of parser calls on byte strings: peak traced allocation (tracemalloc) <= 1 MiB + 8 KiB per input byte', 'work = number of Python "line" trace events whose code lives under pytoniq_core (deterministic, refactoring-neutral up to constants)',
                'bound = 50 * (cells + refs + input bytes)^2 + 2000 events: the property\'s "low-degree polynomial"; capped at 1.8e9 for sizes > 6000',
                'wall-clock is not judged; the tracer raises at the budget so an exponential or count-driven loop ends the call and is recorded as aborted']
 K, K0 = 50, 2000
@@ -79,6 +79,41 @@ def measure(fn, budget, holder=None):
     return count[0], aborted, out
 
 
+def peak_kib(fn):
+    """peak traced allocation of one call, in KiB; the address space is capped for the duration so that a table of 2^32 entries
+    fails (and is reported as a huge peak) instead of taking the machine down"""
+    import resource
+    import signal
+    import tracemalloc
+    soft, hard = resource.getrlimit(resource.RLIMIT_AS)
+    try:
+        with open('/proc/self/statm') as f:
+            cur = int(f.read().split()[0]) * resource.getpagesize()
+    except Exception:
+        cur = 1 << 31
+    cap = cur + (3 << 30)
+    signal.signal(signal.SIGALRM, _alarm)
+    signal.alarm(60)
+    peak = 0
+    try:
+        resource.setrlimit(resource.RLIMIT_AS, (cap if hard == resource.RLIM_INFINITY or cap < hard else hard, hard))
+        tracemalloc.start()
+        try:
+            fn()
+        except MemoryError:
+            peak = 1 << 40
+        except (Abort, Exception):
+            pass
+        peak = max(peak, tracemalloc.get_traced_memory()[1])
+    except Abort:
+        peak = max(peak, 1 << 40)
+    finally:
+        tracemalloc.stop()
+        signal.alarm(0)
+        resource.setrlimit(resource.RLIMIT_AS, (soft, hard))
+    return min((peak + 1023) // 1024, 1 << 30)
+
+
 def dag_size(root):
     seen, e, stack = set(), 0, [root]
     while stack:
@@ -134,6 +169,10 @@ def generate(tier, seed, ctx):
         r = {'op': 'work', 'kind': kind, 'n': n, 'e': e, 'len': ln, 'work': work, 'aborted': aborted, 'budget': b, 'outcome': outcome, 'tags': list(tags)}
         if outn is not None:
             r['outn'] = outn
+        if n == 0 and ln > 0 and not aborted:
+            # byte strings fed to a parser: memory is work too (a table sized by a count field read from the input costs the count,
+            # not the input length, and emits no line events).  Second run of the same call, peak traced allocation in KiB
+            r['peakkb'] = peak_kib(fn)
         out.append(r)
         return holder[0] if holder else None
 
